@@ -215,12 +215,22 @@ def getUrls(sheet):
     return itertools.chain(imports, other)
 
 
+def _nested_uri_values(value):
+    """`value` if it is a URIValue, else the ones in it, e.g. in image-set()"""
+    if value.type == 'URI':
+        yield value
+    else:
+        for item in getattr(value, 'seq', ()):
+            if isinstance(item.value, css.Value):
+                yield from _nested_uri_values(item.value)
+
+
 def _uri_values(style):
     return (
-        value
+        urivalue
         for prop in style.getProperties(all=True)
         for value in prop.propertyValue
-        if value.type == 'URI'
+        for urivalue in _nested_uri_values(value)
     )
 
 
